@@ -35,7 +35,10 @@ CHECKS = {
             "tensors are never cast; (N) optional device/dtype are None-tested; (P,P2,G) dtype/device property "
             "overrides, to()/type() overrides of dtype-keyword classes, requires_grad only on floating tensors; (C) the "
             "ownership engine proves that the operator returned by clone() holds no tensor object and no storage of "
-            "the original. Each is "
+            "the original; (R) explicit rebuilds inside to/type/cpu/cuda/double/float/half/clone/detach bind to the "
+            "constructor and forward every value-bearing flag; (M) no statement outside LinearOperator.__init__ "
+            "mutates a keyword-record dictionary of an existing operator, directly or through an alias (the "
+            "representation tree keeps references). Each is "
             "a necessary condition of the property. NOT decided: equality of dense values after a conversion.",
             TRUST, "DESIGN.md section 3, C14"),
     "C15": (True,
